@@ -139,17 +139,23 @@ class FutureResult(object):
         self._done_event = EventData()
         self.__callback = None
         self.__extra = None
+        self.__lock = threading.Lock()
 
     def __notify(self):
         """
         Notify the given callback about the result of the execution
         """
-        if self.__callback is not None:
+        with self.__lock:
+            # Take the registration: each one is notified exactly once, with
+            # its own extra parameter, even if set_callback() and the end of
+            # the execution overlap
+            callback, extra = self.__callback, self.__extra
+            self.__callback = None
+
+        if callback is not None:
             try:
-                self.__callback(
-                    self._done_event.data,
-                    self._done_event.exception,
-                    self.__extra,
+                callback(
+                    self._done_event.data, self._done_event.exception, extra
                 )
             except Exception as ex:
                 self._logger.exception("Error calling back method: %s", ex)
@@ -165,8 +171,10 @@ class FutureResult(object):
         :param method: The method to call back in the end of the execution
         :param extra: Extra parameter to be given to the callback method
         """
-        self.__callback = method
-        self.__extra = extra
+        with self.__lock:
+            self.__callback = method
+            self.__extra = extra
+
         if self._done_event.is_set():
             # The execution has already finished
             self.__notify()
